@@ -503,18 +503,17 @@ func envRoundTrip(x *mon.Ctx) {
 	reps := x.Scale(1, 6)
 	t := 0
 	for rep := 0; rep < reps; rep++ {
-		for _, n := range lens {
+		for li, n := range lens {
 			for ci := range contentCiphers {
 				t++
-				api := envAPIs[t%len(envAPIs)]
-				c := x.Begin("envelope round trip: %s cipher=%s content length %d rep %d", api, contentCiphers[ci].name, n, rep)
+				api := envAPIs[(li+3*ci+7*rep)%len(envAPIs)] // every (cipher, API) pair occurs, at 28 lengths each per rep
+				s := genEnv(mon.NewRand(x.Seed, "c16.env.roundtrip/spec", t), api, ci, n)
+				c := x.Begin("envelope round trip #%d (rep %d): %v", t, rep, s)
 				if c == nil {
 					continue
 				}
 				seedLibraryRand(c, x)
-				s := genEnv(c.R, api, ci, n)
 				c.Class("rt/%s/%s", classOfEnv(s), lenClass(n))
-				c.Detail("spec", s.String())
 				b, err := buildEnv(c, w, s)
 				if err != nil {
 					if !c.Failed() {
@@ -533,16 +532,12 @@ func envRoundTrip(x *mon.Ctx) {
 // signEnvAlter: alteration sweeps over SignedAndEnvelopedData.
 func signEnvAlter(x *mon.Ctx) {
 	w := setup(x)
-	n := x.Scale(36, 480)
+	n := x.Scale(36, 600)
 	for i := 0; i < n; i++ {
 		api := []string{aSignEnvSM, aSignEnv}[i%2]
 		ci := (i / 2) % len(contentCiphers)
-		c := x.Begin("signed-and-enveloped alteration sweep #%d: %s cipher=%s", i, api, contentCiphers[ci].name)
-		if c == nil {
-			continue
-		}
-		seedLibraryRand(c, x)
-		s := genEnv(c.R, api, ci, sweepLens[c.R.Intn(len(sweepLens))])
+		r := mon.NewRand(x.Seed, "c16.signenv.alter/spec", i)
+		s := genEnv(r, api, ci, sweepLens[r.Intn(len(sweepLens))])
 		// the sweep decrypts once per alteration: first recipient SM2 (fast) except for a few RSA-1024 cases
 		if i%12 == 11 {
 			s.rcpt[0] = kRSA1024a
@@ -553,8 +548,12 @@ func signEnvAlter(x *mon.Ctx) {
 		if s.signer.kind == kP384 && i%6 != 0 {
 			s.signer.kind, s.signer.digest = kP256, "sha256"
 		}
+		c := x.Begin("signed-and-enveloped alteration sweep #%d (every byte x 4 substitutions): %v", i, s)
+		if c == nil {
+			continue
+		}
+		seedLibraryRand(c, x)
 		c.Class("alt/%s/signer=%v-%s", classOfEnv(s), s.signer.kind, s.signer.digest)
-		c.Detail("spec", s.String())
 		b, err := buildEnv(c, w, s)
 		if err != nil {
 			if !c.Failed() {
